@@ -112,6 +112,37 @@ def check(idx: Index, rep: Report, tier: str) -> str:
     else:
         r.fail(f.fq + ":invariant", Finding("C16.R4", f.fq, "non-invariant-operand", "the other operand of the folded op is not checked to be loop-invariant", f.loc))
 
+    r = rep.rule("C16.R5", "affine lowering uses the operand indices unchanged only when the access has no map (or the map is tested to be the identity); otherwise every result expression of the map is materialised", floor=1)
+    f = idx.func("xdsl/transforms/lower_affine.py", "insert_affine_map_ops")
+    fn = f.node
+    mapn, dimsn = fn.args.args[0].arg, fn.args.args[1].arg
+    direct = [st for st in walk_local(fn) if isinstance(st, (ast.Assign, ast.AnnAssign)) and st.value is not None and dimsn in {x.id for x in ast.walk(st.value) if isinstance(x, ast.Name)} and not any(call_attr(c) == "affine_expr_ops" for c in calls_in(st.value, local=False))]
+    if not direct:
+        r.ok(f.fq, f"{f.loc} indices are always computed from the map")
+    from ..astutil import guards_of
+
+    for st in direct:
+        bad = None
+        gs = guards_of(fn, st)
+        if not gs:
+            bad = "unconditionally"
+        for t, pol in gs:
+            disj = t.values if (pol and isinstance(t, ast.BoolOp) and isinstance(t.op, ast.Or)) else [t]
+            for d in disj:
+                dt = unparse(d)
+                okd = (pol and dt == f"{mapn} is None") or ((not pol) and dt in (f"{mapn} is not None", mapn)) or (pol and dt == f"not {mapn}") or (pol and "is_identity" in dt) or (pol and re.search(r"== AffineMap\.identity\(", dt))
+                if not okd:
+                    bad = f"under `{dt}`"
+        if bad:
+            r.fail(f.fq, Finding("C16.R5", f.fq, "map-skipped", f"`{unparse(st)}` passes the operand indices through {bad}: a map that permutes or repeats dimensions, e.g. (d0, d1) -> (d1, d0), is lowered as if it were the identity (a transposed access becomes a straight one)", f"{f.module.relpath}:{st.lineno}"))
+        else:
+            r.ok(f.fq, f"{f.module.relpath}:{st.lineno} operand indices used directly only without a map")
+    loops = [w for w in walk_local(fn) if isinstance(w, ast.For) and unparse(w.iter) == f"{mapn}.data.results" and any(call_attr(c) == "affine_expr_ops" for c in calls_in(w))]
+    if loops:
+        r.ok(f.fq + ":results", f"{f.loc} one affine_expr_ops per result expression")
+    else:
+        raise AnalysisError(f"{f.fq}: loop over {mapn}.data.results with affine_expr_ops not found")
+
     return (
         "Guarded-action rules on the two code-motion transformations (LICM, control-flow hoist) and two structural rules on "
         "loop unrolling (simultaneous update) and range folding (per-iteration single-use test). scf->cf conversion, affine "
